@@ -82,11 +82,12 @@ PROPS = {
     ),
     'C13': dict(
         level_text='Bounded model checking of the layout-independence kernels of the compound-file reader: Sectors::get_chain returns the logical stream (truncated to its length) for every placement of a 1..=2 (3 thorough) sector chain among 4 sectors and every FAT content consistent with it; Cfb::get_stream picks the mini-stream exactly below 4096 bytes and reports unknown names; Header::from_reader decodes every field at its MS-CFB offset.',
-        hosts={'src/cfb.rs': ['c13_cfb.rs']},
-        functions=['cfb::Sectors::get_chain', 'cfb::Sectors::get', 'cfb::Cfb::get_stream', 'cfb::Cfb::has_directory', 'cfb::Header::from_reader'],
+        hosts={'src/cfb.rs': ['c13_cfb.rs', 'c13_dir.rs']},
+        functions=['cfb::Sectors::get_chain', 'cfb::Sectors::get', 'cfb::Cfb::get_stream', 'cfb::Cfb::has_directory', 'cfb::Header::from_reader', 'cfb::Directory::from_slice'],
+        stubs=['encoding_rs::Encoding::decode -> model_utf16_decode (directory entry names)'],
         bounds={'chain': '4 sectors of 8 bytes (stated concretisation of the sector size); placements: 6 representative permutations quick, 20 thorough (chain length 1..=4); sector contents, unused FAT entries and len symbolic',
                 'cutoff': 'directory len in 1..=8192, one-sector chains', 'header': 'v3 (512-byte sectors), bytes 24..78 symbolic'},
-        outside=['Cfb::new on whole containers (DIFAT/FAT loading loops over 512-byte sectors)', 'Directory::from_slice (encoding_rs UTF-16 decoding)', 'multi-megabyte streams, DIFAT chains', 'v4 header path in quick'],
+        outside=['Cfb::new on whole containers (DIFAT/FAT loading loops over 512-byte sectors)', 'directory names longer than 2 characters / non-ASCII', 'multi-megabyte streams, DIFAT chains', 'v4 header path in quick'],
         assumptions=['the FAT describes a cycle-free chain (cyclic/dangling chains: hostile input, C06)'],
     ),
     'C18': dict(
@@ -175,14 +176,14 @@ PROPS = {
     ),
     'C06': dict(
         level_text='Bounded model checking of slice-level parser entry points on arbitrary bytes of every length up to a small bound (xls record walkers, RecordIter, SST/BoundSheet headers; cfb decompressor, sector chains under a hostile FAT, header; xlsb cell records shorter than their fields; xlsx cell names with many digits/letters, Dimensions::len; Range::from_sparse on distant cells): Kani\'s built-in panic / index / slice / overflow / unwrap checks plus loop bounds derived from the input length decide "Ok or Err, never a panic, terminates". Genuine failures that are not repaired are listed in known_findings.json and reported as KNOWN-FINDING lines.',
-        hosts={'src/xls.rs': ['c06_xls.rs'], 'src/cfb.rs': ['c06_cfb.rs'], 'src/xlsx/mod.rs': ['c06_xlsx.rs'], 'src/xlsb/mod.rs': ['c03_xlsb.rs'], 'src/xlsb/cells_reader.rs': ['c06_cells.rs'], 'src/lib.rs': ['c06_lib.rs']},
+        hosts={'src/xls.rs': ['c06_xls.rs'], 'src/cfb.rs': ['c06_cfb.rs'], 'src/xlsx/mod.rs': ['c06_xlsx.rs'], 'src/xlsb/mod.rs': ['c03_xlsb.rs'], 'src/xlsb/cells_reader.rs': ['c06_cells.rs'], 'src/lib.rs': ['c06_lib.rs'], 'src/vba.rs': ['c06_vba.rs']},
         select=[r'^c06_'],
         substitutions='C03',
         functions=['xls::parse_number/parse_rk/parse_bool_err/parse_label_sst/parse_formula_value/parse_mul_rk/parse_merge_cells/parse_dimensions/parse_xf/parse_sheet_metadata/parse_sst', 'xls::RecordIter::next',
-                   'cfb::decompress_stream', 'cfb::Sectors::get_chain', 'cfb::Header::from_reader', 'xlsb::cells_reader::XlsbCellsReader::next_cell', 'xlsx::get_row_and_optional_column', 'Dimensions::len', 'Range::from_sparse'],
+                   'vba::read_variable_record', 'vba::check_record', 'vba::check_variable_record', 'cfb::Sectors::get', 'cfb::Sectors::get_chain', 'cfb::Header::from_reader', 'xlsb::cells_reader::XlsbCellsReader::next_cell', 'xlsx::get_row_and_optional_column', 'Dimensions::len', 'Range::from_sparse'],
         stubs=['encoding_rs::Encoding::decode -> model_utf16_decode', 'xlsb byte source -> KSrc (as in C03)'],
         bounds={'record bodies': 'every length 0..=N with N in 9..18 per entry point', 'FAT': '4 sectors; three concrete cycle shapes (self loop, 2-cycle, tail + 3-cycle) and a dangling id symbolic in [2, 2^32-3]', 'xlsb records': 'declared length shorter than the kind needs'},
-        outside=['zip and quick-xml internals', 'decompress_stream on arbitrary bytes (3 arbitrary bytes exceed 400 s: every byte may be a copy token)', 'open_workbook_auto trial opening', 'whole-file time/space proportionality', 'vba.rs dir-stream readers, xls/xlsb parse_formula on arbitrary tokens (not admitted yet)'],
+        outside=['zip and quick-xml internals', 'decompress_stream on arbitrary bytes (3 arbitrary bytes exceed 400 s: every byte may be a copy token)', 'open_workbook_auto trial opening', 'whole-file time/space proportionality', 'vba.rs read_dir_information / references on arbitrary bytes, xls/xlsb parse_formula on arbitrary tokens (not admitted)'],
         assumptions=['declared counts in MergeCells/SST headers bounded by 3 / 2 so that the loop bound is finite'],
     ),
     'C16': dict(
@@ -219,6 +220,7 @@ RULES = [
     (r'^c03_t_(row_change|two_rows)', dict(unwindset={'4KSrc': 14})),
     (r'^c13_[qt]_(chain|cutoff|stream|twin)', dict(arena=64)),
     (r'^c13_[qt]_header', dict(arena=512)),
+    (r'^c13_q_directory', dict(arena=64, fs_array=128)),
     (r'^c13_q_cutoff', dict(min_covers=2)),
     (r'^c10_q_grammar', dict(min_covers=2)),
     (r'^c02_[qt]_rk_.*x100', dict(timeout=2700, weight=9)),
